@@ -111,6 +111,12 @@ def evaluate(case):
             fails.append(f"F_to_G on matched grids (N={N}): the array returned by an earlier call changed when the same Transformer transformed "
                          "other data onto the same grid (it is a buffer of the object)")
             return fails
+        # an option switched off by a comparison result (numpy.False_), by 0 or by None is switched off
+        for off in (np.bool_(False), 0, None):
+            _, G_off, _ = tr.F_to_G(q, f, r, lorch=off)
+            if not np.array_equal(np.asarray(G_off), G_snap, equal_nan=True):
+                fails.append(f"F_to_G(lorch={off!r}) on matched grids differs from the transform without the option: a falsy switch is treated as on")
+                return fails
         _, f2, _ = tr.G_to_F(r, G, q)
         if exceeds(np.abs(np.asarray(f2) - f).max(), 1e-9 * sc * max(1.0, np.sqrt(N))):
             fails.append(f"F->G->F on matched grids (N={N}) does not return the input: {np.abs(np.asarray(f2) - f).max():.3g}")
